@@ -29,11 +29,11 @@ for be in BACKS:
             dict(name='ARCHIVE-direction2', pat='Archive :: is_saving :: value', rep='( ! ar -> is_loading )', min=0),
             dict(name='ARCHIVE-amp', pat='ar & self -> $1 ;', rep='AR_AMP ( ar , $1 ) ;', min=0),
             dict(name='fusion-for_each', pat='for_each ( self -> m_substate_list , serialize_state < Archive > ( ar ) ) ;', rep='AR_AMP ( ar , substates ) ;', min=0, max=1)]),
-        also_replace=['ar_amp'], replay=['copy']))
+        also_replace=['ar_amp'], replay=['ser']))
 for pol, cls in enumerate(['NoHistoryImpl', 'AlwaysHistoryImpl', 'ShallowHistoryImpl']):
     UNITS.append(Unit('back.%s.serialize' % cls, ['C16', 'C08'], 'back', Part('back/history_policies.hpp', ['class ' + cls], 'void serialize ( Archive &'),
         'void history_serialize(archive_t* ar, unsigned int version)', 'copy_serialize.spec.h', defines=['POLICY=%d' % pol],
         xform=back_xform([], refparams=(), rewrites=[
             dict(name='ARCHIVE-direction', pat='Archive :: is_loading :: value', rep='ar -> is_loading', min=0),
             dict(name='ARCHIVE-amp', pat='ar & $1 ;', rep='HAR_AMP ( ar , $1 ) ;', min=0)]),
-        also_replace_if_present=['har_amp'], replay=['copy']))
+        also_replace_if_present=['har_amp'], replay=['ser']))
